@@ -46,6 +46,8 @@ def gen_inputs(rng, spec, n=None, capacity_ok=None):
             d["share"] = [float(rng.integers(1, 20)) / 20.0 if rng.random() < 0.25 else 0.0 for _ in range(n)]
             if rng.random() < 0.15:
                 d["share"] = [1.0 if x else 0.0 for x in d["share"]]         # fixed share of the whole rating
+            elif rng.random() < 0.1:
+                d["share"] = [1e-9 if x else 0.0 for x in d["share"]]        # a fixed share of (almost) nothing is still a fixed share
         elif k in ("other_load", "drive"):
             scale = min(c["rated"], 0.5 * total_src / n_cons)
             d["load"] = [float(np.round(rng.uniform(0.02, 0.95) * scale, 2)) if rng.random() < 0.9 else 0.0 for _ in range(n)]
@@ -103,7 +105,13 @@ def apply_inputs(plant, inp, copy=True):
             obj.power_input = arr(d["given"], pw_dt)
     ties = plant.spec.get("bus_ties", [])
     if ties:
-        sys_.set_bus_tie_status_all(np.array(inp["breaker"], dtype=br_dt).T.reshape(n, len(ties)))
+        table = np.array(inp["breaker"], dtype=br_dt).T.reshape(n, len(ties))
+        kept = getattr(plant, "_breaker_table", None)
+        if inp.get("breaker_table_in_place") and kept is not None and kept.shape == table.shape and kept.dtype == table.dtype:
+            kept[:, :] = table          # the caller keeps one table, updates it in place and hands it over again
+            table = kept
+        plant._breaker_table = table
+        sys_.set_bus_tie_status_all(table)
     sys_.set_time_interval(np.array(inp["dt"], dtype=float), integration_method=IntegrationMethod.sum_with_time)
 
 
